@@ -53,12 +53,14 @@ type Contract struct {
 	Pure       bool
 	Sweep      map[string]bool
 	MakeLimit  int64
+	RecvNonNil bool // ASSUMPTION: interface values received from channels are non-nil
 	Inline     bool
 	NoPaths    bool
 	Props      []string
 	Trusted    []string
 	MaxPaths   int
 	GhostSets  []Clause            // "field(expr) := expr" applied at call sites after the frame havoc
+	CallSites  map[string]int      // "<callee short name>" -> exact number of static call sites
 	Ghosts     []string            // ghost variables (int) bound to fresh symbols
 	CallAsserts map[string][]Clause // "<callee short name>#<ordinal>" -> assertions checked before that call
 }
@@ -277,10 +279,22 @@ func (cs *ContractSet) loadFile(path string) error {
 			cur.MaxPaths, _ = strconv.Atoi(rest)
 		case "inline":
 			cur.Inline = true
+		case "recvnonnil":
+			cur.RecvNonNil = true
+			cur.Trusted = append(cur.Trusted, "interface values received from channels are non-nil (senders only send constructed pipes)")
 		case "nopaths":
 			cur.NoPaths = true
 		case "props":
 			cur.Props = append(cur.Props, reProp.FindAllString(rest, -1)...)
+		case "callsites":
+			f := strings.Fields(rest)
+			if len(f) != 2 {
+				return fmt.Errorf("%s: callsites <callee> <n>", loc)
+			}
+			if cur.CallSites == nil {
+				cur.CallSites = map[string]int{}
+			}
+			cur.CallSites[f[0]], _ = strconv.Atoi(f[1])
 		case "ghostset":
 			cur.GhostSets = append(cur.GhostSets, mk())
 		case "ghost":
